@@ -9,7 +9,7 @@ PROP = dict(
         corpus_filter=r"^c12_",
         # len = per-mille of cases that go through the real RPC handlers
         quick=dict(n=100000, len=250, shards=8, timeout=300),
-        thorough=dict(n=1400000, len=250, shards=32, timeout=1500),
+        thorough=dict(n=2400000, len=250, shards=32, timeout=1500),
         nontrivial=r"res=(accept|panic)", min_ops=1, min_kinds=1,
         rule="one evaluation = one generated (contract, existing revision, settings, height) input case executed on the real validator or the real RPC handler and on the Lean model; distinct_nontrivial = distinct cases the implementation accepted or panicked on",
         trusted_base=COMMON_TB + [
